@@ -596,6 +596,62 @@ fn one_case(ctx: &Ctx, rng: &mut Rng, st: &mut St) {
             }
         }
     }
+    // ---- a program whose constants are all defined by the program itself also compiles through the
+    //      plain `compile` entry point, and its const-sized arguments / outputs can be parsed
+    if case.exts.is_empty() {
+        match catch(|| garble_lang::compile(&case.with_consts)) {
+            Err(p) => {
+                ctx.violation(&format!("compile() panicked on a program whose constants are all internal: {p}"), describe());
+                return;
+            }
+            Ok(Err(_)) => st.counts.inc("plain compile(): rejected"),
+            Ok(Ok(prg)) => {
+                st.counts.inc("plain compile(): compiled");
+                if let Some((idx, text, n_bits)) = &case.literal_probe {
+                    match catch(|| prg.parse_arg(*idx, text).map(|arg| arg.as_bits().len())) {
+                        Ok(Ok(n)) if n == *n_bits => st.counts.inc("plain compile(): argument literal of a const-sized parameter accepted"),
+                        other => {
+                            let mut d = describe();
+                            d["argument"] = json!({"parameter": idx, "literal": text, "expected_bits": n_bits, "outcome": format!("{other:?}").chars().take(400).collect::<String>()});
+                            ctx.violation("program compiled with compile(): a value of a const-sized parameter type is not accepted by parse_arg (or panics, or has the wrong size)", d);
+                            return;
+                        }
+                    }
+                }
+                let c = gl::ssa(&prg);
+                let inputs: Vec<Vec<bool>> = c.input_gates.iter().map(|n| vec![false; *n]).collect();
+                if let Err(p) = catch(|| {
+                    let out = prg.circuit.eval(&inputs);
+                    let _ = prg.parse_output(&out);
+                }) {
+                    ctx.violation(&format!("program compiled with compile(): eval / parse_output panicked: {p}"), describe());
+                    return;
+                }
+            }
+        }
+    }
+    // ---- one value of another party has one type: defining a second const of another type by it is an error
+    if !case.exts.is_empty() && rng.chance(1, 6) {
+        let e = &case.exts[rng.usize_below(case.exts.len())];
+        let other = match &*e.ty.name() {
+            "bool" => "u8",
+            "u8" => "u16",
+            "usize" => "u32",
+            _ => "u8",
+        };
+        let src2 = format!("const ZZ9: {other} = {}::{};\n{}", e.party, e.name, case.with_consts);
+        match catch(|| garble_lang::compile_with_constants(&src2, consts_map(&case.exts, &none, &none, false))) {
+            Err(p) => {
+                ctx.violation(&format!("compile_with_constants panicked on a program that uses one external value at two types: {p}"), json!({"program": src2}));
+                return;
+            }
+            Ok(Ok(_)) => {
+                ctx.violation("a program that defines consts of two different types by the same external value is compiled (the supplied value cannot have both types)", json!({"program": src2, "value": format!("{}::{} = {}", e.party, e.name, e.ty.lit(e.value))}));
+                return;
+            }
+            Ok(Err(_)) => st.counts.inc("one external value at two types: rejected"),
+        }
+    }
     // ---- fault injection
     if case.exts.is_empty() {
         return;
@@ -623,7 +679,7 @@ fn one_case(ctx: &Ctx, rng: &mut Rng, st: &mut St) {
             }
         }
         _ => {
-            // mixed: some missing, some mistyped (only "is an error, no panic" is judged)
+            // mixed: some missing, some mistyped
             skip.insert(rng.usize_below(case.exts.len()));
             let j = rng.usize_below(case.exts.len());
             if !skip.contains(&j) {
@@ -688,7 +744,14 @@ fn one_case(ctx: &Ctx, rng: &mut Rng, st: &mut St) {
                     }
                 }
                 _ => {
-                    st.counts.inc("fault injection: mixed, error returned");
+                    // mixed: the error names every missing and every mistyped constant
+                    st.counts.inc("fault injection: mixed, missing and mistyped constants named");
+                    if named_missing != want_missing || named_mistyped != mistype.len() {
+                        ctx.violation(
+                            &format!("error names missing constants {named_missing:?} and {named_mistyped} mistyped ones; injected: missing {want_missing:?}, {} mistyped", mistype.len()),
+                            fault,
+                        );
+                    }
                 }
             }
         }
